@@ -20,7 +20,9 @@
 (* far.  reg is the set of dynamic names the loading process already knows:*)
 (* a machine is loaded either by the process that built it (reg contains   *)
 (* its dynamic names) or by a fresh process (reg = {}); loading registers   *)
-(* the names and still leaves the machine unchanged.                       *)
+(* the names and still leaves the machine unchanged.  The registry only    *)
+(* grows: a machine is loaded again after every other machine of the       *)
+(* catalogue has been built (reg is then the union of all names).          *)
 (***************************************************************************)
 EXTENDS Integers, Sequences, FiniteSets, TLC, BMIsaOpLists, Json, IOUtils, SequencesExt
 
@@ -31,7 +33,10 @@ DynOps == <<"addfps8f4", "addfxps8f4", "calla4st", "callo4st", "divfps8f4",
 SharedKinds == {"sharedmem:16", "channel:", "barrier:8", "lfsr8:7", "lfsr8:37", "lfsr8:172", "vtextmem:0:1:1:8:4", "vtextmem:0:2:3:20:5", "queue:4", "stack:4", "uart:9600:4", "kbd:4"}
 
 Dom(ops, thr, ws) == [ops |-> ops, threaded |-> thr, wsextra |-> ws]
-Doms == {Dom(ops, thr, ws) : ops \in OpLists \cup {DynOps, <<"add", "j", "rsets8">>}, thr \in {0, 1, 2}, ws \in {0, 3}}
+\* names that differ only in the case of a letter are different names (two stacks dQ and dq)
+TwinA == <<"add", "j", "pull4dQ", "push4dQ">>
+TwinB == <<"add", "j", "pull4dq", "push4dq">>
+Doms == {Dom(ops, thr, ws) : ops \in OpLists \cup {DynOps, <<"add", "j", "rsets8">>, TwinA, TwinB}, thr \in {0, 1, 2}, ws \in {0, 3}}
 
 \* orders in which processors 0, 1 are connected to objects 0, 1 ([p, s] pairs): ascending or crossed, per processor
 C(p, so) == [p |-> p, s |-> so]
@@ -48,7 +53,8 @@ Machines ==
   {[dom |-> Dom(OL4, 0, 0), nproc |-> 2, sos |-> <<s1, s2>>, att |-> <<{0, 1}, {0, 1}>>, conn |-> c] :
       s1 \in {"queue:8"}, s2 \in {"queue:4"}, c \in ConnOrders}
 
-DynNames(x) == {x.dom.ops[i] : i \in DOMAIN x.dom.ops} \cap {DynOps[i] : i \in DOMAIN DynOps}
+DynUniverse == {DynOps[i] : i \in DOMAIN DynOps} \cup {"pull4dQ", "push4dQ", "pull4dq", "push4dq"}
+DynNames(x) == {x.dom.ops[i] : i \in DOMAIN x.dom.ops} \cap DynUniverse
 Init == m \in Machines /\ reg \in {{}, DynNames(m)}
 SaveLoad == m' = m /\ reg' = reg \cup DynNames(m)
 Next == SaveLoad
